@@ -215,9 +215,16 @@ class CursorAnalysis(object):
         if prev is None:
             self._seen_ob[k] = [node, what, ok, detail]
         else:
-            prev[2] = prev[2] and ok
-            if not ok:
+            # violated dominates, then "not decidable" (None), then holds
+            if prev[2] is False or ok is False:
+                comb = False
+            elif prev[2] is None or ok is None:
+                comb = None
+            else:
+                comb = True
+            if ok is not True and (prev[2] is True or (prev[2] is None and ok is False)):
                 prev[3] = detail
+            prev[2] = comb
 
     def need(self, node, alt, cid, j, what):
         """Obligation for reading at offset j (what='read beyond') or advancing by j."""
@@ -377,8 +384,11 @@ class CursorAnalysis(object):
                         a3.lt = frozenset(p_ for p_ in a3.lt if p_[0] != cid)
                     else:
                         if op == '+=':
-                            self.oblige(node, 'advance %s by a computed amount' % self.cursors[cid].get('name'), False,
-                                        'the amount is not a constant on this path')
+                            by_read = self._bounded_by_read(node, rhs, cid)
+                            self.oblige(node, 'advance %s by a computed amount' % self.cursors[cid].get('name'), True if by_read else None,
+                                        'amount is E + 1 where the character at offset E was read and found not to be the terminator'
+                                        if by_read else 'the amount is not a constant on this path and no read of the character before '
+                                        'the new position bounds it')
                         a3.k[cid] = ()
                         a3.forget(cid)
                         a3.drop(cid)
@@ -469,6 +479,29 @@ class CursorAnalysis(object):
             a2.k[cid] = ()
             res.append(a2)
         return self._cap(res)
+
+    def _bounded_by_read(self, node, rhs, cid):
+        """rhs == E + 1 (or E with a read at E - 1 ...) where on every path to this statement cursor[E] was compared equal to
+        a character other than the terminator, cursor and E unchanged since (must-hold facts of the function)."""
+        try:
+            F = self.ctx.facts(self.f)
+        except Exception:
+            return False
+        fs = F.facts_at_ast(node) or frozenset()
+        ck = '%s#%s' % (self.cursors[cid].get('name'), cid)
+        ak = F.keys.key(rhs)
+        for (op_, a, b) in fs:
+            if op_ != '==':
+                continue
+            for (mem, val) in ((a, b), (b, a)):
+                m = re.match(r'^n:(-?\d+)$', val)
+                if not m or int(m.group(1)) == 0:
+                    continue
+                for pat in (r'^%s\[(.+)\]$' % re.escape(ck), r'^\*\(\(%s \+ (.+)\)\)$' % re.escape(ck)):
+                    mm = re.match(pat, mem)
+                    if mm and ak in ('(%s + n:1)' % mm.group(1), '(n:1 + %s)' % mm.group(1)):
+                        return True
+        return False
 
     def _bounded_by_leader(self, node, rhs, cid, alt):
         """rhs == n * L where L is a local initialised as (leader - cursor) / n, leader >= cursor,
@@ -989,8 +1022,9 @@ def check_function(ctx, rule, fkey):
     n = 0
     for (node, what, ok, detail) in obs:
         n += 1
-        ctx.check(ok, rule, '%s at %s in %s' % (what, pos(node), fname(fkey).split('(')[0]), node,
-                  'the cursor can be moved or read past the terminator of its string: %s' % detail,
-                  construct='cursor:%s:%s' % (fname(fkey).split('(')[0], what), detail='known characters suffice on every path')
+        ctx.check3(ok, rule, '%s at %s in %s' % (what, pos(node), fname(fkey).split('(')[0]), node,
+                   'the cursor can be moved or read past the terminator of its string: %s' % detail,
+                   construct='cursor:%s:%s' % (fname(fkey).split('(')[0], what), detail='known characters suffice on every path',
+                   unknown_why=detail)
     ctx.stats.setdefault('cursor_steps', {})[fname(fkey).split('(')[0]] = ca.steps
     return n
